@@ -500,6 +500,15 @@ def element(ctx, depth):
             e = ["rec", ctx.newtag("oe"), ["var", d(st.sampled_from(
                 ctx.scalars))]]
         stmts["on-error"] = [d(st.sampled_from(["text", "structure"])), e]
+    if is_ns and ctx.opts.get("onerror") and ctx.opts.get("fail_p") and \
+            d(st.integers(0, 2)) == 0:
+        # an element of a template-language namespace whose body fails and
+        # that handles the failure itself
+        if "on-error" not in stmts:
+            stmts["on-error"] = ["text", ["const", "'E'"]]
+        if "replace" not in stmts:
+            stmts["content"] = ["text", ["boom", d(st.sampled_from(
+                ["ValueError", "KeyError", "OSError"])), ctx.newtag("ct")]]
     # children
     has_switch = "switch" in stmts
     if has_switch:
